@@ -149,6 +149,24 @@ func c14GenScenario(r *rng) *C14Scenario {
 		}
 		sc.Observers = append(sc.Observers, Obs{K: k, A: r.intn(64), B: r.intn(64), C: r.intn(64)})
 	}
+	// Focused histories: a third of the runs aim every selector at the first one
+	// or two entities, so that observations and several different edits hit the
+	// SAME value (violations that need such a conjunction are otherwise rare).
+	if r.chance(1, 3) {
+		m := 1 + r.intn(2)
+		for i := range sc.Prog.Steps {
+			st := &sc.Prog.Steps[i]
+			if st.Op == "func" || st.Op == "global" || st.Op == "typedef" || st.Op == "alias" {
+				continue
+			}
+			st.A, st.B, st.C, st.D, st.P = st.A%m, st.B%m, st.C%(m+1), st.D%(m+2), st.P%(m+1)
+		}
+		for i := range sc.Observers {
+			o := &sc.Observers[i]
+			o.A, o.B, o.C = o.A%m, o.B%m, o.C%(m+1)
+		}
+		sc.Note = "focused"
+	}
 	// Gaps are counted in yields (= steps); keep them small so that the observer
 	// lands inside the program, not after it.
 	mean := 1 + r.intn(1+steps/(nobs+1))
